@@ -152,6 +152,10 @@ func partA(r *vreport.Run) {
 						one(append(t, file.VerifJob{Filename: "/x", Inode: 3, SourceID: 13, Streams: []file.VerifStream{{s2, 9}, {s1, 8}}}))
 						one(append(table{{Filename: "/empty", Inode: 4, SourceID: 14}}, t...))
 					}
+					if r.Thorough() || f2 == fileNames[0] {
+						// a file watched directly and through a symlink: two jobs with the same inode and different source ids
+						one(append(append(table{}, t...), file.VerifJob{Filename: "/link-to-" + f1, Inode: 1, SourceID: 4711, Streams: []file.VerifStream{{s1, 6}}}))
+					}
 				}
 			}
 		}
